@@ -202,6 +202,13 @@ class Mixed:
             return [e]
         self.add("get %s %d %s %s" % (T, h, hx(g), hx(k)), conv)
 
+    def op_ext(self, h):
+        g, k = self.r.choice(SECS), self.r.choice(KEYS + ["a", "b", "k0", "k1"])
+        self.add("ext %d %s %s" % (h, hx(g), hx(k)),
+                 lambda ev, root, h=h, g=g, k=k: [{"e": "ext", "h": h, "g": opt(g), "k": opt(k), "rc": ev["rc"], "line": ev.get("line", 0),
+                                                  "file": codes(self.rel(ev.get("file") or "", root)), "cb": codes(ev.get("cb") or ""), "ca": codes(ev.get("ca") or ""),
+                                                  "vals": [codes(x) for x in (ev.get("vals") or []) if x != ""]}])
+
     def op_settags(self, h):
         d, c = self.r.choice(["=", ":", " "]), self.r.choice(["#", ";"])
         self.add("settags %d %s %s" % (h, hx(d), hx(c)), lambda ev, root, h=h, d=d, c=c: [{"e": "settag", "h": h, "which": "d", "tag": ord(d)}, {"e": "settag", "h": h, "which": "c", "tag": ord(c)}])
@@ -263,8 +270,10 @@ class Mixed:
             y = self.r.random()
             # the calls the root specification learnt for the repository's test programs (options, general readConfig, history,
             # process-wide drop-in directory list, typed access, listings, tags)
-            if y < 0.30 and (self.ops is None or self.ops & {"readconfig", "typed", "listings", "confdirs", "readhist", "tags"}):
+            if y < 0.30 and (self.ops is None or self.ops & {"readconfig", "typed", "listings", "confdirs", "readhist", "tags", "ext"}):
                 z = self.r.random()
+                if z < 0.35 and live and allow("ext") and (self.ops is not None and "ext" in self.ops or z < 0.08):
+                    self.op_ext(self.r.choice(live)); continue
                 if z < 0.25 and free and allow("readconfig"):
                     self.op_readconfig(free[0]); continue
                 if z < 0.32 and allow("readhist"):
@@ -337,6 +346,7 @@ OPS = {   # every property exercises the root specification with the calls IT ta
     "C13": {"read", "readdirs"},
     "C15": {"readconfig_opt", "readconfig", "get"},
     "C09": {"read", "new", "set", "typed"},
+    "C17": {"read", "readdirs", "set", "ext"},
     "C12": {"readdirs", "readhist", "confdirs", "get"},
     "ALL": None,
 }
